@@ -118,28 +118,30 @@ def native_shift(sizes, rng):
     return bad
 
 
-def native_estimation(rng, amps):
+def native_estimation(rng, amps, lengths=(121, 82, 90, 100, 101, 128, 66)):
     bad = []
-    t = np.arange(121)
-    for amp in amps:
+    for amp, nlen in [(a, n) for a in amps for n in lengths]:
+        t = np.arange(nlen)
+        c0 = nlen * 0.42
         for shift in (-1.5, 0.25, 3.37, -4.0, 0.0):
-            spike = -amp * np.exp(-0.5 * ((t - 50) / 3.0) ** 2) + 0.3 * amp * np.exp(-0.5 * ((t - 60) / 6.0) ** 2)
+            spike = -amp * np.exp(-0.5 * ((t - c0) / 3.0) ** 2) + 0.3 * amp * np.exp(-0.5 * ((t - c0 - 10) / 6.0) ** 2)
             moved = F.fshift(spike, shift)
             resync, est = W.wave_shift_corrmax(spike, moved)
             # wave_shift_corrmax(a, b): shift of b relative to a
             if abs(abs(est) - abs(shift)) > 0.05:
-                bad.append(("estimate", amp, shift, float(est)))
+                bad.append(("estimate", amp, nlen, shift, float(est)))
             if not np.allclose(resync, spike, atol=0.03 * amp):
-                bad.append(("re-alignment", amp, shift))
-        c = -(t - 59.6) ** 2 * amp + 10 * amp
+                bad.append(("re-alignment", amp, nlen, shift))
+        pk = nlen * 0.5 - 0.9
+        c = -(t - pk) ** 2 * amp + 10 * amp
         ip, mx = U.parabolic_max(c)
-        if abs(ip - 59.6) > 0.02:
-            bad.append(("parabolic_max", amp, float(ip)))
+        if abs(ip - pk) > 0.02:
+            bad.append(("parabolic_max", amp, nlen, float(ip)))
     return bad
 
 
 @bounded(PROPERTY, "native_shift_theorem", bound="full impulse basis for n in 2..48 + {64, 97, 127, 128, 243, 251, 256} (thorough: 2..256 + primes to 2048), both axes, float32/float64, integer shifts incl. 0 and -(n-1), "
-         "composition, analytic band-limited delay, per-trace shifts on both axes, alternating axes with the same length (call history); delay estimation for amplitudes 1, 1e-3, 8e-5",
+         "composition, analytic band-limited delay, per-trace shifts on both axes, alternating axes with the same length (call history); delay estimation for amplitudes 1, 1e-3, 8e-5 x waveform lengths {121, 82, 90, 100, 101, 128, 66} (odd, 0 and 2 mod 4)",
          clause="integer shift == roll, zero shift == identity, shifts add up, fractional delay, delay estimation")
 def b_native(B):
     rng = np.random.default_rng(B.seed)
